@@ -309,6 +309,26 @@ func v13StatsCached(data []RawType, npre int, signed bool) v13Stats {
 
 func v13Tol(want float64) float64 { return math.Max(1e-3, 1e-6*math.Abs(want)) }
 
+// The residual standard deviation is computed by the code under test in two passes over a float64 residual: it is
+// accurate to ~1e-10 of the record's scale. (The pulse RMS is computed in one pass with cancellation, accurate only
+// to ~1e-3 absolute for a constant full-scale record: that is what v13Tol allows for.)
+func v13TolTight(want float64) float64 { return math.Max(1e-6, 1e-9*math.Abs(want)) }
+
+func v13CloseTight(got, want float64) bool {
+	if math.IsNaN(got) || math.IsNaN(want) || math.IsInf(got, 0) {
+		return false
+	}
+	return math.Abs(got-want) <= v13TolTight(want)
+}
+
+func v13Close32Tight(got float32, want float64) bool {
+	g := float64(got)
+	if math.IsNaN(g) || math.IsNaN(want) || math.IsInf(g, 0) {
+		return false
+	}
+	return math.Abs(g-want) <= v13TolTight(want)+math.Abs(want)/(1<<23)
+}
+
 func v13Close(got, want float64) bool {
 	if math.IsNaN(got) || math.IsNaN(want) || math.IsInf(got, 0) {
 		return false
@@ -397,7 +417,7 @@ func v13CheckRecord(x *vexp.X, q *v13Run, rec *DataRecord, loaded bool) (*v13Vio
 			}
 		}
 		put(rec.residualStdDev)
-		if !v13Close(rec.residualStdDev, wantR) {
+		if !v13CloseTight(rec.residualStdDev, wantR) {
 			return bad("c13-residual", "residual std dev %v, population std of record - basis x coefs is %v", rec.residualStdDev, wantR)
 		}
 	}
@@ -424,7 +444,7 @@ func v13CheckRecord(x *vexp.X, q *v13Run, rec *DataRecord, loaded bool) (*v13Vio
 		return bad("c13-msg-pulse-average", "summary message pulse average %v, definition gives %v", mAvg, st.avg)
 	}
 	if loaded {
-		if !v13Close32(mRes, wantR) {
+		if !v13Close32Tight(mRes, wantR) {
 			return bad("c13-msg-residual", "summary message residual std dev %v, definition gives %v", mRes, wantR)
 		}
 		if len(msg[1]) != 8*len(wantC) {
@@ -655,7 +675,7 @@ func v13OffBody(x *vexp.X, q *v13Run, path string) vexp.Result {
 		if !v13Close32(r.ptDelta, st.ptDelta) {
 			return bad("c13-off-pretrig-delta", "pretrigger delta %v, least-squares slope x (npre-1) is %v", r.ptDelta, st.ptDelta)
 		}
-		if !v13Close32(r.resid, wantR) {
+		if !v13Close32Tight(r.resid, wantR) {
 			return bad("c13-off-residual", "residual std dev %v, definition gives %v", r.resid, wantR)
 		}
 		if len(r.coefs) != len(wantC) {
